@@ -210,6 +210,29 @@ def run(ctx):
         for (fn, f), cs in sorted(guards.items()):
             r3.fail("plugins-gated-by-client-settable:%s" % f, "the plugin dispatch sites are guarded by %s(), which a client can force to false through `%s` (try_execute_command assigns it: SET SERVER ROLE TO 'primary'|'replica'|'any' sets it to Some(false)), so any client can switch table_access/intercept off for its session" % (fn, f), cs[0].where())
 
+        # the same inside execute_plugins (round 5): no test in front of a plugin's run() hinges on client-settable router state
+        epb = ctx.body("pgcat::query_router::QueryRouter::execute_plugins::{closure#0}", r3)
+        if epb:
+            runs = epb.calls("re:^<pgcat::plugins::(intercept|table_access)::.* as pgcat::plugins::Plugin>::run$")
+            if len(runs) < 2:
+                r3.missing("Intercept / TableAccess run() calls in execute_plugins")
+            hinges = {}
+            for rc_ in runs:
+                for sb, t in epb.control_deps(rc_.block, depth=6):
+                    for o in origins(epb, epb.blocks[sb]["term"]["op"]):
+                        if o.kind == "call" and o.call.name.startswith("pgcat::query_router::QueryRouter::"):
+                            for fn_, fl_ in forced_false(o.call.name):
+                                for f_ in fl_:
+                                    hinges.setdefault(f_, o.call)
+                    flds_ = set()
+                    for o in origins(epb, epb.blocks[sb]["term"]["op"], taint=True):
+                        if o.kind in ("place", "param") and not any(p_ == ".pool_settings" for p_ in o.proj):
+                            flds_ |= {p_[1:] for p_ in o.proj if p_.startswith(".")}
+                    for f_ in flds_ & settable:
+                        hinges.setdefault(f_, rc_)
+            r3.check(not hinges, "plugins-run-not-client-switchable", "inside execute_plugins no test in front of Intercept/TableAccess::run depends on state a client SET command assigns (%d run sites)" % len(runs),
+                     "execute_plugins skips the plugins depending on %s, which try_execute_command assigns (SET SERVER ROLE TO 'primary'|'replica'|'any'): any client can switch table_access / intercept off for its session" % sorted(hinges),
+                     next(iter(hinges.values())).where() if hinges else "")
     # ---------------- R4 relation names compared the way PostgreSQL resolves them
     r4 = ctx.rule("C19-R4", "table_access compares the last identifier of the relation, folded to lower case unless quoted — not the printed ObjectName", floor=3)
     ta = ctx.body(TA_RUN, r4)
